@@ -13,8 +13,21 @@ where
 
     let mut n = 0;
 
+    // A CR at the end of a window that holds no LF may be the first half of a CRLF pair whose LF is
+    // delivered by the next window. It is held back until the next window shows what follows.
+    let mut has_pending_cr = false;
+
     loop {
         let src = reader.fill_buf().await?;
+
+        if has_pending_cr {
+            has_pending_cr = false;
+
+            // Not a line ending after all: the CR is data, as it is when it arrives mid-window.
+            if src.first().is_some_and(|&b| b != LINE_FEED) {
+                buf.push(CARRIAGE_RETURN);
+            }
+        }
 
         if src.first().map(|&b| b == DEFINITION_PREFIX).unwrap_or(true) {
             break;
@@ -34,7 +47,13 @@ where
                 i + 1
             }
             None => {
-                buf.extend(src);
+                if let Some((&CARRIAGE_RETURN, line)) = src.split_last() {
+                    buf.extend_from_slice(line);
+                    has_pending_cr = true;
+                } else {
+                    buf.extend_from_slice(src);
+                }
+
                 src.len()
             }
         };
